@@ -533,3 +533,27 @@ VARIANTS += [
  dict(name='array-literal-loop-breaks', file=P, expect='flagged(parser/mandatory)', find=_PARSER,
       replace=_sub(_PARSER2, '\t\tif attrKeyValue[field] == "" {', '\t\tif field == "O" {\n\t\t\tbreak\n\t\t}\n\t\tif attrKeyValue[field] == "" {')),
 ]
+
+_SPLIT = _sub(_VFN, 'identityPrefix, identityValue, found := strings.Cut(identity, ":")', 'identityPrefix, identityValue, found := splitTrustedIdentity(identity)') + '''
+// splitTrustedIdentity splits a trusted identity into its kind and its value.
+func splitTrustedIdentity(identity string) (kind string, value string, ok bool) {
+	return strings.Cut(identity, ":")
+}
+
+'''
+
+VARIANTS += [
+ # -- the split handed through a helper that returns (kind, value, ok); switch on the kind
+ dict(name='benign-split-helper', file=V, expect='silent', find=_VFN, replace=_SPLIT),
+ dict(name='split-helper-always-ok', file=V, expect='flagged(verifier/missing-separator)', find=_VFN,
+      replace=_sub(_SPLIT, '\treturn strings.Cut(identity, ":")\n', '\tkind, value, _ = strings.Cut(identity, ":")\n\treturn kind, value, true\n')),
+ dict(name='split-helper-last-colon', file=V, expect='flagged(verifier/)', find=_VFN,
+      replace=_sub(_SPLIT, '\treturn strings.Cut(identity, ":")\n', '\ti := strings.LastIndex(identity, ":")\n\tif i < 0 {\n\t\treturn identity, "", false\n\t}\n\treturn identity[:i], identity[i+1:], true\n')),
+ dict(name='benign-switch-on-kind', file=V, expect='silent',
+      find='\t\tif identityPrefix == trustpolicyInternal.X509Subject {\n', replace='\t\tswitch identityPrefix {\n\t\tcase trustpolicyInternal.X509Subject:\n'),
+ # -- loops of the parser left before their end
+ dict(name='rdn-loop-stops-after-mandatory', file=P, expect='flagged(parser/every-attribute-read)',
+      find='\t\tfor _, attribute := range rdn.Attributes {\n', replace='\t\tif len(attrKeyValue) >= 3 {\n\t\t\tbreak\n\t\t}\n\t\tfor _, attribute := range rdn.Attributes {\n'),
+ dict(name='mandatory-loop-breaks', file=P, expect='flagged(parser/mandatory)',
+      find='\t\tif attrKeyValue[field] == "" {\n', replace='\t\tif field == "O" {\n\t\t\tbreak\n\t\t}\n\t\tif attrKeyValue[field] == "" {\n'),
+]
